@@ -48,7 +48,9 @@ func NewRetryTransaction(ctx context.Context, retryDelay time.Duration, retryCou
 	go func() {
 		select {
 		case <-ctx.Done():
+			t.retryNumMutex.Lock()
 			t.stopTimer()
+			t.retryNumMutex.Unlock()
 		case <-t.Done():
 			return
 		}
@@ -58,12 +60,23 @@ func NewRetryTransaction(ctx context.Context, retryDelay time.Duration, retryCou
 
 // Transaction.Success() implementation.
 func (t *RetryTransaction) Success() {
+	t.retryNumMutex.Lock()
+	defer t.retryNumMutex.Unlock()
+
 	t.stopTimer()
 	t.TransactionBase.Success()
 }
 
 // Transaction.Fail() implementation.
 func (t *RetryTransaction) Fail(e error) {
+	t.retryNumMutex.Lock()
+	defer t.retryNumMutex.Unlock()
+
+	t.fail(e)
+}
+
+// You must acquire t.retryNumMutex before calling this function!
+func (t *RetryTransaction) fail(e error) {
 	t.stopTimer()
 	t.TransactionBase.Fail(e)
 }
@@ -73,12 +86,19 @@ func (t *RetryTransaction) Proceed(state interface{}, data interface{}) {
 	t.retryNumMutex.Lock()
 	defer t.retryNumMutex.Unlock()
 
+	select {
+	case <-t.Done():
+		// A finished transaction must not be retried.
+		return
+	default:
+	}
 	t.State = state
 	t.Data = data
 	t.retryNum = 0
 	t.restartTimer()
 }
 
+// You must acquire t.retryNumMutex before calling this function!
 func (t *RetryTransaction) stopTimer() {
 	if t.timer != nil {
 		t.timer.Stop()
@@ -94,13 +114,20 @@ func (t *RetryTransaction) timeout() {
 	t.retryNumMutex.Lock()
 	defer t.retryNumMutex.Unlock()
 
+	select {
+	case <-t.Done():
+		// The timer fired while the transaction was being finished.
+		return
+	default:
+	}
 	t.retryNum++
 	if t.retryNum > t.retryCount {
-		t.Fail(ErrNoMoreRetries)
+		t.fail(ErrNoMoreRetries)
 		return
 	}
 	if err := t.retryCallback(t.Data); err != nil {
-		t.Fail(err)
+		t.fail(err)
+		return
 	}
 	t.restartTimer()
 }
